@@ -17,7 +17,7 @@ def run(ck):
     ck.need("confine_on", 120)
     ck.need("results_executed", 120)
     ck.need("cli_applies", 5)
-    for f in ("imports:plain-import", "imports:from-import", "imports:aliased-from-import", "imports:aliased-module", "imports:function-local-import", "imports:function-local-from-import", "type-checking-bound-in-try",
+    for f in ("imports:plain-import", "imports:from-import", "imports:aliased-from-import", "imports:aliased-module", "imports:function-local-import", "imports:function-local-from-import", "imports:relative-import-in-package", "type-checking-bound-in-try",
               "imports:mixed", "existing-type-checking-block", "future-import", "docstring"):
         ck.counters["feature:" + f] = 1 if f in ck.sets.get("source_features", ()) else 0
         ck.need("feature:" + f, 1, "source feature never generated")
